@@ -26,6 +26,11 @@ import (
 type Failure struct {
 	Class string `json:"class"` // short oracle class, e.g. "roundtrip-mismatch", "panic"
 	Msg   string `json:"msg"`
+	// Case, when set, replaces the generated case in the replay file (a check that
+	// enumerates many inputs per generated case saves exactly the failing one).
+	Case interface{} `json:"-"`
+	// Known, when set, names the open known finding this failure is an instance of.
+	Known string `json:"-"`
 }
 
 func failf(class, format string, a ...interface{}) *Failure {
@@ -136,7 +141,13 @@ func (w *worker) saveFail(c interface{}, f *Failure) {
 		return
 	}
 	w.nFail++
-	rec := map[string]interface{}{"property": w.id, "failure": f, "case": c}
+	if f.Case != nil {
+		c = f.Case
+	}
+	rec := map[string]interface{}{"property": w.id, "failure": f, "case": c, "universe": envInt("VERIF_UNIVERSE", 1)}
+	if f.Known != "" {
+		rec["known"] = f.Known
+	}
 	b, err := json.MarshalIndent(rec, "", " ")
 	if err != nil {
 		b = []byte(fmt.Sprintf(`{"property":%q,"failure":{"class":%q,"msg":%q},"case":null}`, w.id, f.Class, f.Msg))
